@@ -58,6 +58,8 @@ fn bisim<A: Automaton, B: Automaton>(
     anchored: bool,
     names: (&str, &str),
 ) -> Result<(u64, u64, bool), String> {
+    // exhaustive exploration legitimately follows millions of failure links
+    let _suspend = engine::SuspendBudget::new();
     let a = anch(anchored);
     let sa = ra.start_state(a).map_err(|e| format!("{}: start_state({:?}) failed: {}", names.0, a, e))?;
     let sb = rb.start_state(a).map_err(|e| format!("{}: start_state({:?}) failed: {}", names.1, a, e))?;
@@ -370,18 +372,18 @@ Non-trivial = the trie has a state with >= 2 transitions and >= 12 product state
         "the search loops read only start_state/next_state/is_special/is_dead/is_match/match_len/match_pattern/pattern_len/match_kind (+ prefilter, C05), so agreement on all reachable product states implies equal results",
         "exhaustive per pattern list (up to the 300k product-state cap, class product-cap-hit counts exceptions), sampled over pattern lists",
     ],
-    cases_quick: 12_000,
-    cases_thorough: 300_000,
+    cases_quick: 7_000,
+    cases_thorough: 200_000,
     strategy: c04_strategy,
     check: c04_check,
     extra: None,
     floors: &[
-        ("trie:one-transition-state", 5_000),
-        ("trie:sparse-4k-transitions", 1_000),
-        ("trie:sparse-4k+r-transitions", 5_000),
+        ("trie:one-transition-state", 3_000),
+        ("trie:sparse-4k-transitions", 600),
+        ("trie:sparse-4k+r-transitions", 3_000),
         ("trie:state->127-transitions", 50),
-        ("byte-classes:off", 1_000),
-        ("byte-classes:on", 5_000),
+        ("byte-classes:off", 600),
+        ("byte-classes:on", 3_000),
     ],
 };
 
@@ -390,6 +392,8 @@ Non-trivial = the trie has a state with >= 2 transitions and >= 12 product state
 /// Walk every state reachable from every obtainable start state, under both
 /// supported anchoring arguments and all 256 bytes, checking the contract.
 fn walk<A: Automaton>(a: &A, name: &str, expect_start: [bool; 2]) -> Result<(u64, u64, u64, u64), String> {
+    // exhaustive exploration legitimately follows millions of failure links
+    let _suspend = engine::SuspendBudget::new();
     let mut starts = Vec::new();
     let mut modes = Vec::new();
     for (i, anchored) in [false, true].into_iter().enumerate() {
